@@ -66,12 +66,15 @@ impl Offset {
                         None => result,
                     };
                     match result {
-                        Ok(bytes) => {
-                            TimeZone::from_tzif(&bytes)
-                                .unwrap()
-                                .to_local_time_type(DateTime::now().timestamp())
-                                .utoff
-                        }
+                        Ok(bytes) => match TimeZone::from_tzif(&bytes) {
+                            Ok(time_zone) => {
+                                time_zone
+                                    .to_local_time_type(DateTime::now().timestamp())
+                                    .utoff
+                            }
+                            // Same as if the file could not be read
+                            Err(_) => 0,
+                        },
                         Err(_) => 0,
                     }
                 };
